@@ -222,6 +222,7 @@ class BaseParser:
             # resolved by another thread in the meantime
             return False
         clear_refs = []
+        resolved_names = []
         resolved = False
         # todo: add resolve hooks so that application code can execute lazy-load type process logic
         for name in list(self.forward_refs):
@@ -258,7 +259,7 @@ class BaseParser:
                     resolved = True
                     if self.is_local:
                         clear_refs.append(ref)
-                    self.forward_refs.pop(name)
+                    resolved_names.append(name)
             except Exception:
                 if ignore_errors:
                     continue
@@ -275,6 +276,10 @@ class BaseParser:
             for ref in clear_refs:
                 ref.__forward_evaluated__ = False
                 ref.__forward_value__ = None
+        # pop at the very end: an empty forward_refs lets other threads skip the lock,
+        # so it must not be seen before the fields are updated (and local refs cleared)
+        for name in resolved_names:
+            self.forward_refs.pop(name, None)
         return resolved
 
     @classmethod
